@@ -183,9 +183,23 @@ class Runner:
         probs = []
         if not exp:
             return probs, 0
-        res = self.lcx.job({'id': 0, 'doc': doc, 'ast': self.prop == 'C17', 'code': True})
+        job = {'id': 0, 'doc': doc, 'ast': self.prop == 'C17', 'code': True}
+        mm = re.search(r'(<component name="c">.*?)(<math [^>]*>)\n(.*?)\n</math>', doc, re.S)
+        if mm and '\n' in mm.group(3):
+            # afterwards the caller lists the same equations in the opposite order on the SAME model object (indices shift), analyses
+            # again with the same analyser and generates with the same generator: must equal what fresh instances produce
+            job['regen_math'] = {'c': mm.group(2) + '\n' + '\n'.join(reversed(mm.group(3).split('\n'))) + '\n</math>'}
+        res = self.lcx.job(job)
         if 'crash' in res:
             return [(None, 'pipeline-crash:' + res['crash'], {'stderr_tail': res.get('stderr', '')})], 0
+        rg = res.get('regen')
+        if rg is not None:
+            if rg.get('type_reused_analyser') != rg.get('type_fresh_analyser') or not rg.get('issues_same', True):
+                probs.append((None, 'history:reused-analyser-differs-from-fresh-analyser-after-the-model-was-edited', {k: rg.get(k) for k in ('type_reused_analyser', 'type_fresh_analyser')}))
+            for k in ('c_h_same', 'c_c_same', 'py_same'):
+                if rg.get(k) is False:
+                    probs.append((None, 'history:reused-generator-differs-from-fresh-generator-after-the-model-was-edited:' + k[:-5],
+                                  {'reused': (rg.get('c_c_reused') or '')[-1500:], 'fresh': (rg.get('c_c_fresh') or '')[-1500:]}))
         for x in res.get('c15', []):
             probs.append((None, 'C15:logger-incoherent:' + x['service'], x))
         if res.get('parse_issues') or res.get('validate_errors', 0) or not res.get('valid'):
